@@ -451,6 +451,81 @@ theorem icp_recovers_of_strictly_closest (align : Pairs ℝ → SE3 ℝ) (hal : 
   icp_recovers align hal nn src tgt hnn X₀ Xs h₀ hXs init hstart
     (fun s hs => basin_of_strictly_closest nn tgt hnn _ _ (hin s hs) (hstrict s hs)) n
 
+/-! ## batches and call histories -/
+
+/-- **batched = item-wise**: item `i` of a batched `svdtf` call is `svdtf` of item `i` alone (no decision on the path
+looks at another item), hence optimal for its own correspondences whatever the other items are (mixed-regime batches). -/
+theorem svdtfBatch_itemwise (svd : Mat3 ℝ → SVD3 ℝ) (detK : Mat3 ℝ → ℝ) (hdet : ∀ M, detK M = M.det) (atol : ℝ)
+    (ha : |atol| < 1) (items : List (Pairs ℝ)) (i : Nat) (hi : i < items.length)
+    (h : SVDOk (crossCov (centered items[i])) (svd (crossCov (centered items[i])))) :
+    ∃ hi' : i < (svdtfBatch svd detK atol items).length,
+      (svdtfBatch svd detK atol items)[i] = svdtf svd detK atol items[i] ∧
+      ∀ X' : SE3 ℝ, X'.q.normSq = 1 →
+        cost (SE3Act (svdtfBatch svd detK atol items)[i]) items[i] ≤ cost (SE3Act X') items[i] := by
+  refine ⟨by simp [svdtfBatch, hi], by simp [svdtfBatch], ?_⟩
+  intro X' hX'
+  simp only [svdtfBatch, List.getElem_map]
+  exact svdtf_optimal svd detK hdet atol ha _ h X' hX'
+
+/-- **a call history on one ICP module is stateless**: after any list of calls — with every per-call argument (clouds
+of any sizes, number of passes, forward-`init` or none) varying freely — the module is what it was, and the result of
+every call is the result of the same call on a fresh module. -/
+theorem icpMod_history (align : Pairs ℝ → SE3 ℝ) (nn : Cloud ℝ → Vec3 ℝ → Nat) (m : IcpMod ℝ) (calls : List (IcpCall ℝ)) :
+    (IcpMod.run align nn m calls).1 = m ∧
+    (IcpMod.run align nn m calls).2 = calls.map fun c => (m.forward align nn c).2 := by
+  induction calls with
+  | nil => exact ⟨rfl, rfl⟩
+  | cons c cs ih =>
+    simp only [IcpMod.run, List.map_cons]
+    have hm : (m.forward align nn c).1 = m := rfl
+    rw [hm]
+    exact ⟨ih.1, by rw [ih.2]⟩
+
+/-- forward's `init` takes precedence over the constructor's; without it the constructor's is used -/
+theorem icpMod_init_precedence (align : Pairs ℝ → SE3 ℝ) (nn : Cloud ℝ → Vec3 ℝ → Nat) (m : IcpMod ℝ) (c : IcpCall ℝ) :
+    (∀ T, c.fwdInit = some T → (m.forward align nn c).2 = icp align nn (some T) c.passes c.src c.tgt) ∧
+    (c.fwdInit = none → (m.forward align nn c).2 = icp align nn m.init c.passes c.src c.tgt) := by
+  constructor
+  · intro T hT; simp [IcpMod.forward, IcpMod.effInit, hT]
+  · intro hN; simp [IcpMod.forward, IcpMod.effInit, hN]
+
+/-- every call of a history obeys the property: its result is never worse than its own effective initial transform -/
+theorem icpMod_history_le_init (align : Pairs ℝ → SE3 ℝ) (hal : AlignOk align) (nn : Cloud ℝ → Vec3 ℝ → Nat)
+    (m : IcpMod ℝ) (hm : ∀ T, m.init = some T → T.q.normSq = 1) (calls : List (IcpCall ℝ))
+    (hc : ∀ c ∈ calls, NNOk nn c.tgt ∧ ∀ T, c.fwdInit = some T → T.q.normSq = 1) :
+    ∀ p ∈ calls.zip (IcpMod.run align nn m calls).2,
+      sscd nn p.1.tgt (p.1.src.map (SE3Act p.2)) ≤ sscd nn p.1.tgt (icpStart (m.effInit p.1) p.1.src) := by
+  rw [(icpMod_history align nn m calls).2]
+  intro p hp
+  obtain ⟨c, hcm, rfl⟩ : ∃ c ∈ calls, p = (c, (m.forward align nn c).2) := by
+    rw [List.zip_map_right] at hp
+    obtain ⟨x, hx, rfl⟩ := List.mem_map.mp hp
+    have hx' := List.of_mem_zip hx
+    refine ⟨x.1, hx'.1, ?_⟩
+    have : x.2 = x.1 := by
+      have hz : ∀ (l : List (IcpCall ℝ)) (y : IcpCall ℝ × IcpCall ℝ), y ∈ l.zip l → y.2 = y.1 := by
+        intro l; induction l with
+        | nil => intro y hy; simp at hy
+        | cons a l ih =>
+          intro y hy
+          simp only [List.zip_cons_cons, List.mem_cons] at hy
+          rcases hy with rfl | hy
+          · rfl
+          · exact ih y hy
+      exact hz calls x hx
+    simp [Prod.map, this]
+  obtain ⟨hnn, hf⟩ := hc c hcm
+  have hinit : ∀ T, m.effInit c = some T → T.q.normSq = 1 := by
+    intro T hT
+    unfold IcpMod.effInit at hT
+    cases hfi : c.fwdInit with
+    | none => rw [hfi] at hT; exact hm T hT
+    | some T' =>
+      rw [hfi] at hT
+      have hTT : T' = T := Option.some.inj hT
+      exact hTT ▸ hf T' hfi
+  exact icp_result_le_init align hal nn c.src c.tgt hnn (m.effInit c) hinit c.passes
+
 /-! ## Non-vacuity: the hypotheses are satisfiable by non-trivial values -/
 
 /-- a concrete reflection-prone problem: `M = diag(2, 2, -1)` has the SVD `1 · diag(2,2,1) · diag(1,1,-1)` with
